@@ -64,6 +64,7 @@ def parseHOp (t : List String) : HOp :=
   | ["count"] => .count
   | ["countof", a] => .countOf (hostOf a)
   | ["spawn_ticker"] => .spawnTicker
+  | ["spawn_rt_ticker"] => .spawnTicker
   | ["select4"] => .select4
   | ["exit"] => .exit
   | ["net_partition", a, b] => .net .partition (hostOf a) (hostOf b)
